@@ -35,7 +35,7 @@
      BugTail       TRUE  = tail loop starts at iMem instead of iMem-1 (a made-up deviation: non-vacuity self-test)
      Judge         "all" = every range is judged;  "outside" = ranges of the two known defect classes
                            (ClassA / ClassB) are left out                                                    *)
-EXTENDS KVStore
+EXTENDS KVStore, FiniteSetsExt, Json
 
 CONSTANTS Keys, PrefixSet, StartSet, DepthSet, CutSet, Backends, MaxLayers, MaxEntries,
           MemBackBound, CutStale, BugTail, Judge
@@ -143,13 +143,12 @@ MergeTail(memRes, st) ==
          IN  st.out \o [n \in 1..Len(idx) |-> <<memRes[idx[n]].k, memRes[idx[n]].v>>]
 
 RECURSIVE ImplSeekAt(_, _, _, _)
+LowerStream(j, rid, depth) ==           \* what ps.Seek(rng, mergeFunc) delivers to layer j (nothing if SearchDepth = 1)
+    IF depth = 0 \/ depth > 1 THEN ImplSeekAt(j - 1, rid, IF depth > 1 THEN depth - 1 ELSE 0, FALSE) ELSE <<>>
+MergeAll(memRes, lower, rid, cut) == MergeTail(memRes, MergeStream(memRes, MergeInit(memRes), lower, 1, rid, cut))
 ImplSeekAt(j, rid, depth, cut) ==       \* Seek / SeekAsync on layer j of the stack (0 = the backend)
     IF j = 0 THEN BackendSeek(rid)
-    ELSE LET memRes == MemSnapshot(stack[j], rid)
-             lower  == IF depth = 0 \/ depth > 1
-                       THEN ImplSeekAt(j - 1, rid, IF depth > 1 THEN depth - 1 ELSE 0, FALSE)
-                       ELSE <<>>
-         IN  MergeTail(memRes, MergeStream(memRes, MergeInit(memRes), lower, 1, rid, cut))
+    ELSE MergeAll(MemSnapshot(stack[j], rid), LowerStream(j, rid, depth), rid, cut)
 
 RECURSIVE ImplGetAt(_, _)
 ImplGetAt(j, k) ==
@@ -185,6 +184,25 @@ Spec == Init /\ [][Next]_vars
 
 Bound == Entries <= MaxEntries
 
+(* Direct enumeration of the stacks (one state each, no transitions needed): every assignment of at most
+   MaxEntries entries to the slots (level, key), level 0 = backend; the value of a put names its level.  Every
+   such stack is reachable by the actions above; the actions produce, in addition, the same stacks with the value
+   labels permuted, which no part of the read path can tell apart (values are only copied). *)
+SlotMap(f, lvl) == [k \in {s[2] : s \in {x \in DOMAIN f : x[1] = lvl}} |-> IF f[<<lvl, k>>] = "put" THEN <<lvl>> ELSE TOMB]
+(* two phases so that TLC's workers share the work: initial states fix backend, stack height and the backend's
+   content; one step fills the cache layers *)
+EnumInit ==
+    /\ backend \in Backends
+    /\ \E top \in 1..MaxLayers, n \in 0..MaxEntries : \E S \in kSubset(n, Ids) :
+          /\ disk = [k \in S |-> <<0>>]
+          /\ stack = [lvl \in 1..top |-> EmptyMap]
+EnumFill ==
+    /\ \A lvl \in 1..Top : stack[lvl] = EmptyMap
+    /\ \E n \in 1..(MaxEntries - Cardinality(DOMAIN disk)) : \E S \in kSubset(n, (1..Top) \X Ids) : \E f \in [S -> {"put", "tomb"}] :
+          stack' = [lvl \in 1..Top |-> SlotMap(f, lvl)]
+    /\ UNCHANGED <<backend, disk>>
+EnumSpec == EnumInit /\ [][EnumFill]_vars
+
 -----------------------------------------------------------------------------
 (* the judge *)
 View(d) == ViewAt(Live(disk), stack, Top, d)
@@ -201,10 +219,46 @@ ClassB(rid, cut) == cut /\ \E km \in DOMAIN stack[Top] : TrimId[rid][km] \in Key
 
 Judged(rid, cut) == Judge = "all" \/ ~(ClassA(rid) \/ ClassB(rid, cut))
 
+SeekOK(rid, d, cut, memRes, lower, ref) == Judged(rid, cut) => MergeAll(memRes, lower, rid, cut) = ref
 SeekExact == LET views == [d \in DepthSet |-> View(d)]
-             IN  \A rid \in RIds, d \in DepthSet, cut \in CutSet :
-                    Judged(rid, cut) => ImplSeekAt(Top, rid, d, cut) = RefSeek(views[d], rid)
+             IN  \A rid \in RIds :
+                    LET memRes == MemSnapshot(stack[Top], rid) IN
+                    \A d \in DepthSet :
+                       LET lower == LowerStream(Top, rid, d)
+                           ref   == RefSeek(views[d], rid)
+                       IN  \A cut \in CutSet : SeekOK(rid, d, cut, memRes, lower, ref)
 GetExact  == LET v == View(0) IN \A k \in Ids : ImplGetAt(Top, k) = GetRef(v, k)
+(* The range translation of the backends, decided at the level of the tabulated predicates (so for EVERY content
+   of the backend over the key universe): the disk backends select exactly the keys of the abstract range; the
+   in-memory filter does so with the proposed bound, and with the bound of the code as it is it loses exactly the
+   proper extensions of prefix ++ start of a backward seek. *)
+TablesExact ==
+    /\ \A rid \in RIds : DiskIn["bolt"][rid] = RefIn[rid] /\ DiskIn["leveldb"][rid] = RefIn[rid]
+    /\ \A rid \in RIds : MemIn[rid] = IF MemBackBound = "Exact" /\ Back(rid) /\ HasStart(rid)
+                                      THEN RefIn[rid] \ ExtIn[rid] ELSE RefIn[rid]
 (* "flushing a layer at any moment changes no answer": the one map is unchanged by every flush step *)
 FlushKeepsView == [][IsFlush => ViewAt(Live(disk'), stack', Len(stack'), 0) = View(0)]_vars
+
+-----------------------------------------------------------------------------
+(* Counterexample extraction: with Judge = "outside" the ranges of the known classes are not judged by SeekExact;
+   DivergentCases (always true) prints every (stack, range) of those classes on which the model of the code as it
+   is differs from the reference.  The runner replays them on the real stores, where they are judged. *)
+MapOut(m) == LET ks == Ordered(DOMAIN m, FALSE) IN [i \in 1..Len(ks) |-> <<KeySeq[ks[i]], m[ks[i]]>>]
+ResOut(res) == [i \in 1..Len(res) |-> <<KeySeq[res[i][1]], res[i][2]>>]
+CaseOut(rid, d, cut, impl, ref) ==
+    [backend |-> backend, disk |-> MapOut(disk), stack |-> [l \in 1..Top |-> MapOut(stack[l])],
+     prefix |-> RangeSeq[rid].prefix, start |-> RangeSeq[rid].start, back |-> Back(rid), depth |-> d, cut |-> cut,
+     impl |-> ResOut(impl), ref |-> ResOut(ref),
+     cls |-> (IF ClassA(rid) THEN "A" ELSE "") \o (IF ClassB(rid, cut) THEN "B" ELSE "")]
+DivergentCases ==
+    LET views == [d \in DepthSet |-> View(d)]
+    IN  \A rid \in RIds :
+           LET memRes == MemSnapshot(stack[Top], rid) IN
+           \A d \in DepthSet :
+              LET lower == LowerStream(Top, rid, d)
+                  ref   == RefSeek(views[d], rid)
+              IN  \A cut \in CutSet :
+                     \/ ~(ClassA(rid) \/ ClassB(rid, cut))
+                     \/ LET impl == MergeAll(memRes, lower, rid, cut)
+                        IN  impl = ref \/ PrintT(<<"@@CASE@@", ToJson(CaseOut(rid, d, cut, impl, ref))>>)
 =============================================================================
